@@ -14,7 +14,7 @@ def regenerate_suites():
     env.pop("GOSUMDB", None); env.pop("GOTOOLCHAIN", None)
     os.makedirs(BUILD, exist_ok=True)
     tag = os.path.basename(repo.rstrip("/"))
-    exe = os.path.join(BUILD, "gensuites." + tag)
+    exe = os.path.join(BUILD, "gensuites.%s.%d" % (tag, os.getpid()))
     cmd = ["go", "build", "-tags", "verif"]
     if repo != "/repo":
         mod = open(os.path.join(HARNESS, "go.mod")).read().replace("=> /repo", "=> " + repo)
@@ -22,7 +22,13 @@ def regenerate_suites():
         with open(alt, "w") as f: f.write(mod)
         shutil.copy(os.path.join(repo, "go.sum"), alt[:-4] + ".sum")
         cmd += ["-modfile", alt]
-    p = subprocess.run(cmd + ["-o", exe, "./cmd/c27"], cwd=HARNESS, env=env, stdout=subprocess.PIPE, stderr=subprocess.STDOUT, text=True, timeout=1800)
+    # serialise with the driver's other go builds of the harness (concurrent links of one package race in the build cache)
+    import vcheck
+    with vcheck.Lock("go"):
+        p = subprocess.run(cmd + ["-o", exe, "./cmd/c27"], cwd=HARNESS, env=env, stdout=subprocess.PIPE, stderr=subprocess.STDOUT, text=True, timeout=1800)
+    if p.returncode != 0 and "pseudo-cache" in p.stdout:
+        with vcheck.Lock("go"):
+            p = subprocess.run(cmd + ["-o", exe, "./cmd/c27"], cwd=HARNESS, env=env, stdout=subprocess.PIPE, stderr=subprocess.STDOUT, text=True, timeout=1800)
     if p.returncode != 0:
         return False, [], "gen_suites: go build failed:\n" + p.stdout[-1500:]
     q = subprocess.run([exe, "gensuites"], cwd=VERIF, env=env, stdout=subprocess.PIPE, stderr=subprocess.PIPE, text=True, timeout=300)
